@@ -130,6 +130,23 @@ def run(ctx: Ctx) -> int:
         ok = not atoms
         ctx.oblige("C10.b", ok, c, "this normalisation pass of parse_object is unconditional" if ok else f"this normalisation pass of parse_object only runs under {[ast.unparse(t) for t, _ in atoms]}: otherwise defaults reach the result un-normalised ([3, 3] for a Tuple, '0' for an int key) and parse_object(result) converts them - the result is not a fixed point", fn=po)
 
+    # every configuration that enters parse_object from outside (the object itself, cfg_base) passes the per-key checker
+    # before the result is decided: a merge of a parameter into the running configuration is followed, on every path to
+    # _parse_common, by an _apply_actions pass over that running configuration
+    gpo = ctx.cfg(po)
+    po_params = {a_.arg for a_ in po.args.args + po.args.kwonlyargs} - {"self"}
+    pcs = [c for c in calls_in(po) if call_leaf(c) == "_parse_common"]
+    ctx.need(pcs, "parse_object: _parse_common call")
+    n_mb = 0
+    for s_ in walk_local(po):
+        if isinstance(s_, ast.Assign) and isinstance(s_.value, ast.Call) and call_leaf(s_.value) == "merge_config" and s_.value.args and isinstance(s_.value.args[0], ast.Name) and s_.value.args[0].id in po_params and isinstance(s_.targets[0], ast.Name):
+            n_mb += 1
+            run_v = s_.targets[0].id
+            passes = [a_ for a_ in walk_local(po) if isinstance(a_, ast.Assign) and isinstance(a_.value, ast.Call) and call_leaf(a_.value) == "_apply_actions" and a_.value.args and isinstance(a_.value.args[0], ast.Name) and a_.value.args[0].id == run_v and isinstance(a_.targets[0], ast.Name) and a_.targets[0].id == run_v]
+            ok = bool(passes) and gpo.must_pass(gpo.cn(passes), gpo.cn(s_), gpo.cn(pcs), exclude_labels={"e"}, strict=True)
+            ctx.oblige("C10.b", ok, s_, f"`{s_.value.args[0].id}` is normalised by the per-key checker after it was merged in" if ok else f"`{s_.value.args[0].id}` is merged into the configuration after the normalisation pass: its values reach the result raw ([3, 4] for a Tuple, 1 for a float, '1' for an int key), validate() accepts them, and parsing the result again converts them - the result is not a fixed point", fn=po, construct=f"{s_.value.args[0].id} normalised after merge")
+    ctx.floor("C10.b-merged-parameters", n_mb, 1)
+
     # text that loads to text stays as it was written: replacing "'1.10'" by "1.10" makes the next pass read 1.1
     pvc = ctx.func("_util:parse_value_or_config")
     vp = pvc.args.args[0].arg
